@@ -89,7 +89,14 @@ def conversions(func, flow=None):
             r = n.right
             args = written_values(r, flow, flow.node_id_of(n) if flow is not None else None)
             if len(args) != len(specs):
-                args = [None] * len(specs)
+                # bind what can be bound from the left (explicit leading values)
+                head = []
+                for a_ in args:
+                    if isinstance(a_, (ast.Subscript, ast.Starred)) or (
+                            isinstance(a_, ast.Name) and flow is not None and a_.id in flow.rd.names):
+                        break
+                    head.append(a_)
+                args = (head + [None] * len(specs))[:len(specs)]
             for sp, a in zip(specs, args):
                 out.append((sp, a, n))
     return out
